@@ -271,6 +271,7 @@ static void run_line(char *line) {
             if (!strcmp(tok[i], "txhex")) vp_opt_tx_hex = v;
             else if (!strcmp(tok[i], "txcap")) vp_opt_tx_cap = v;
             else if (!strcmp(tok[i], "sleep")) vp_opt_sleep = v;
+            else if (!strcmp(tok[i], "failrc")) vp_fail_rc = v ? v : -1;
             else if (!strcmp(tok[i], "ledger")) opt_ledger = v;
             else if (!strcmp(tok[i], "asnap")) opt_asnap = v;
             else if (!strcmp(tok[i], "in")) opt_in = v;
@@ -291,7 +292,7 @@ static void run_line(char *line) {
     } else if (!strcmp(op, "FAULT")) {
         long k = strtol(tok[2], NULL, 0);
         int mode = nt > 3 ? atoi(tok[3]) : 0;
-        if (!strcmp(tok[1], "malloc")) { vp_fault_malloc_k = k; vp_fault_malloc_mode = mode; }
+        if (!strcmp(tok[1], "malloc")) { vp_fault_malloc_k = k; vp_fault_malloc_mode = mode; vp_fault_malloc_period = k; }
         else { vp_fault_send_k = k; vp_fault_send_mode = mode; }
     } else if (!strcmp(op, "CLEAR")) {
         vp_fault_malloc_k = 0; vp_fault_send_k = 0;
